@@ -20,7 +20,8 @@
 //	hT     . | cidr,cidr,…            reverse_proxy trusted_proxies
 //	omit   three bits                 XFF/XFP/XFH set to nil by the probe before reverse_proxy
 //	remote hex                        r.RemoteAddr
-//	tls    0|1                        r.TLS != nil
+//	tls    0|1|2                      0 plain, 1 r.TLS set, 2 r.TLS nil but the connection in the context
+//	                                  (ConnCtxKey) reports a TLS state — Server.ServeHTTP recovers it
 //	host   hex                        r.Host
 //	hdrs   . | name:value;…           request header fields in wire order (hex:hex)
 //	tbl    . | sub:canon:sbits:hbits:fbits;…  netip's answers: every '%'-free substring of remote /
@@ -48,6 +49,7 @@ import (
 	"crypto/tls"
 	"encoding/json"
 	"fmt"
+	"net"
 	"net/http"
 	"net/http/httptest"
 	"net/netip"
@@ -164,6 +166,13 @@ func (Capture) RoundTrip(req *http.Request) (*http.Response, error) {
 	}, nil
 }
 
+// tlsStateConn is a net.Conn that only knows its TLS state.
+type tlsStateConn struct{ net.Conn }
+
+func (tlsStateConn) ConnectionState() tls.ConnectionState {
+	return tls.ConnectionState{HandshakeComplete: true, Version: tls.VersionTLS13}
+}
+
 var errUpstreamDown = fmt.Errorf("verif: upstream down")
 
 var registerOnce sync.Once
@@ -189,6 +198,7 @@ type kase struct {
 	omit    [3]bool
 	remote  string
 	tls     bool
+	tlsConn bool // r.TLS is nil; the TLS state is only known through the connection in the context (listener wrappers)
 	host    string
 	hdrs    []hdrField
 	tbl     string // as given on the line ("" when the line is being built)
@@ -273,6 +283,9 @@ func (k *kase) line() string {
 	if k.tls {
 		tl = 1
 	}
+	if k.tlsConn {
+		tl = 2
+	}
 	return fmt.Sprintf("req %s %s %d %s %s %s %d %s %s %s %d %d",
 		listField(k.srvT, k.srvTNil, false), listField(k.cih, k.cihNil, true), k.strict,
 		listField(k.hT, false, false), omit, core.Hex(k.remote), tl, core.Hex(k.host), hd, k.table(), k.fails, k.hops)
@@ -320,6 +333,8 @@ func parseLine(line string) (*kase, bool) {
 	case "0":
 	case "1":
 		k.tls = true
+	case "2":
+		k.tls, k.tlsConn = true, true
 	default:
 		return nil, false
 	}
@@ -685,10 +700,15 @@ func (p *prop) serve(k *kase, hdrs []hdrField) (string, *obs, error) {
 		Proto: "HTTP/1.1", ProtoMajor: 1, ProtoMinor: 1,
 		Header: h, Host: k.host, RemoteAddr: k.remote, Body: http.NoBody,
 	}
-	if k.tls {
+	ctx := context.WithValue(context.Background(), obsKey{}, o)
+	if k.tlsConn {
+		// what a listener wrapper that terminates TLS without returning a *tls.Conn leaves behind:
+		// Server.ServeHTTP recovers r.TLS from the connection stored under ConnCtxKey
+		ctx = context.WithValue(ctx, caddyhttp.ConnCtxKey, tlsStateConn{})
+	} else if k.tls {
 		r.TLS = &tls.ConnectionState{HandshakeComplete: true, Version: tls.VersionTLS13}
 	}
-	r = r.WithContext(context.WithValue(context.Background(), obsKey{}, o))
+	r = r.WithContext(ctx)
 	w := httptest.NewRecorder()
 	s.ServeHTTP(w, r)
 	if !o.probed {
